@@ -25,8 +25,8 @@ Definition theorem_index : list indexed := [
         (forall p n, gmatch_x p n <> XPanic /\ gmatch_x p n <> XFuel)
         gmatch_no_panic;
   mkIdx "C15_no_panic_in_toto_verify"
-        (forall now truths tc tcc cmds fuel w path d layout_env keys step_name params inter,
-           is_panic (fst (fst (verify_inst now truths tc tcc cmds fuel w path d layout_env keys step_name params inter))) = false)
+        (forall now truths tc tcc pems cmds fuel w path d layout_env keys step_name params inter,
+           is_panic (fst (fst (verify_inst now truths tc tcc pems cmds fuel w path d layout_env keys step_name params inter))) = false)
         verify_inst_no_panic;
   mkIdx "C15_no_panic_key_use" key_use_statement key_use_no_panic
 ]%list.
